@@ -35,6 +35,10 @@ func (b *bootOnly) OnBoot(e gnet.Engine) gnet.Action {
 }
 
 func runStartFault(w *tr.Writer, seed uint64, idx int) {
+	if idx%4 == 3 {
+		runStopRace(w, seed, idx)
+		return
+	}
 	rnd := tr.NewRand(seed*1000033 + uint64(idx))
 	proto := rnd.PickS([]string{"tcp", "tcp", "unix", "udp"})
 	loops := rnd.Range(1, 3)
@@ -151,6 +155,7 @@ func runStartFault(w *tr.Writer, seed uint64, idx int) {
 		w.Fail("fd-leak", kindOf, fmt.Sprintf("descriptor %d (%s) still open after a start in which %s #%d %s (hit=%v, started=%v, err=%v)", fd, kindOf, name, index, kind, hit, started, err))
 	}
 	rec.mu.Unlock()
+	flushFails(w, rec)
 	for _, up := range []string{unixPath, unixPath2} {
 		if up != "" && !client {
 			if _, e := os.Lstat(up); e == nil {
